@@ -7,6 +7,7 @@ import (
 	"go/types"
 	"sort"
 	"strings"
+	"time"
 
 	"govc/smt"
 
@@ -48,7 +49,7 @@ func (e *Env) newExec(prefix []int, pending *[][]int) *Exec {
 		Cfg: e.Cfg, dec: append([]int(nil), prefix...), pending: pending,
 		Bounded: map[string]int{}, lenChoice: map[string]int{}, globals: map[*ssa.Global]*Cell{}, UsedContracts: map[string]bool{}, Externals: map[string]bool{},
 		callResults: map[string]tval{},
-		forceMemo: map[*LazyV]Val{}, sliceMemo: map[*LazyV]*SliceV{}, opaqueRedo: map[string][]func(){},
+		forceMemo:   map[*LazyV]Val{}, sliceMemo: map[*LazyV]*SliceV{}, opaqueRedo: map[string][]func(){},
 		siteCount: map[string]int{}, worldBase: "",
 	}
 }
@@ -58,6 +59,9 @@ func (e *Env) Explore(maxPaths int, body func(ex *Exec)) (paths []*PathResult, c
 	pending := [][]int{{}}
 	for len(pending) > 0 {
 		if len(paths) >= maxPaths {
+			return paths, true
+		}
+		if !e.Cfg.Deadline.IsZero() && time.Now().After(e.Cfg.Deadline) {
 			return paths, true
 		}
 		prefix := pending[len(pending)-1]
@@ -215,6 +219,12 @@ func (e *Env) VerifyFunc(fn *ssa.Function, ct *Contract, maxPaths int) *FuncResu
 	}
 	defer func() { e.Cfg.Bounds = saved; e.Cfg.DecAbstract = savedDec }()
 	fkey := FuncKey(fn)
+	budget := e.Cfg.FuncBudget
+	if budget == 0 {
+		budget = 90 * time.Second
+	}
+	e.Cfg.Deadline = time.Now().Add(budget)
+	defer func() { e.Cfg.Deadline = time.Time{} }()
 	e.aliasFor = nil
 	if ct != nil {
 		e.aliasFor = ct.Alias
@@ -285,6 +295,28 @@ func (e *Env) VerifyFunc(fn *ssa.Function, ct *Contract, maxPaths int) *FuncResu
 		if ct.HasMod {
 			e.frameObligations(ex, fn, ct, ev, args)
 			e.heapFrame(ex, fn, ct, ev, args)
+		}
+		// supply clauses: every mint/burn on this path, every denom with a non-zero amount
+		if len(ct.Mints)+len(ct.Burns) > 0 {
+			dv, ok := ev.vars["d"]
+			if !ok {
+				ex.abort("mints/burns clauses need `forall d Str`")
+			}
+			d := ex.term(dv.V)
+			for _, evn := range ex.SupplyEvents {
+				clauses := ct.Mints
+				if evn.Kind == "burn" {
+					clauses = ct.Burns
+				}
+				nz := smt.Ne(ex.amtOf(evn.Coins, d), smt.IntC(0))
+				if len(clauses) == 0 {
+					ex.oblige(fkey+"/"+evn.Kind+"s:unclassified", smt.Not(nz), "a "+evn.Kind+" at "+evn.Pos+" in a function whose contract classifies none")
+				}
+				ev.vars["module"] = tval{evn.Module, nil}
+				for _, c := range clauses {
+					ex.oblige(fkey+"/"+evn.Kind+"s:"+c.Name, smt.Implies(nz, ev.bool(c.Expr)), evn.Kind+" at "+evn.Pos)
+				}
+			}
 		}
 	})
 	fr.Paths = paths
@@ -654,6 +686,39 @@ func (ex *Exec) applyContractSig(fr *frame, calleeKey string, pkg *types.Package
 		}
 	}
 	inst(0)
+	// a supply-wrapper summarised by its contract still performs a mint/burn: record it with
+	// coins about which exactly the wrapper's own (proved) mints/burns clauses are known
+	if ct.SupplyWrapper {
+		for _, kc := range []struct {
+			kind    string
+			clauses []*Clause
+		}{{"mint", ct.Mints}, {"burn", ct.Burns}} {
+			if len(kc.clauses) == 0 {
+				continue
+			}
+			nm := Namer{Prefix: label + "!forwarded"}
+			cv := &CoinsV{Sym: &nm}
+			dn := "d"
+			for _, t := range append(append([]*smt.Term{}, ex.TopForalls...), cands[dn]...) {
+				if t.Sort != smt.Str {
+					continue
+				}
+				ev.vars[dn] = tval{t, nil}
+				ev.oldVars[dn] = tval{t, nil}
+				nz := smt.Ne(ex.amtOf(cv, t), smt.IntC(0))
+				ev.inOld = true
+				for _, c := range kc.clauses {
+					ex.assume(smt.Implies(nz, ev.bool(c.Expr)))
+				}
+				ev.inOld = false
+			}
+			var mod *smt.Term
+			if mv, ok := ev.vars["moduleName"]; ok {
+				mod, _ = mv.V.(*smt.Term)
+			}
+			ex.SupplyEvents = append(ex.SupplyEvents, SupplyEvent{Kind: kc.kind, Coins: cv, Module: mod, Pos: "via " + calleeKey})
+		}
+	}
 	ex.UsedContracts[ct.PkgPath+" "+ct.Key] = true
 	return res
 }
